@@ -30,6 +30,7 @@ let run_case cfg (data : string) (ops : string) : wres =
     pos := !pos + k in
   List.iter (fun tok ->
     if tok = "E" then (match !st with WOk s -> st := WOk (end_chunk_model cfg s) | WFuel -> ())
+    else if tok.[0] = 'O' then ()   (* a chunking option after the first data: refused by the library, no effect *)
     else if tok = "R" then write (n - !pos)
     else if tok.[0] = '*' then begin
       let k = int_of_string (String.sub tok 1 (String.length tok - 1)) in
